@@ -518,6 +518,7 @@ def _(c):
     scale_r, scale_v = np.linalg.norm(r0), np.linalg.norm(v0)
     worst = 0.0
     ok_defs = True
+    ok_infos = True
     for A in forms:
         sv = StateVector(x0, Date(58000), "cartesian", frame)
         sv.form = A
@@ -532,6 +533,12 @@ def _(c):
             inplace.form = "cartesian"
             worst = max(worst, np.linalg.norm(np.asarray(inplace, dtype=float)[:3] - x0[:3]) / scale_r)
         c.ensure("receiver_unchanged", sv.form.name == A)
+        # the derived quantities are those of the state, whatever the form it is held in (radius, speed, flight-path angle: against the independent cartesian state)
+        inf = sv.infos
+        sin_fpa_ref = float(np.dot(r0, v0)) / (scale_r * scale_v)
+        ok_infos = ok_infos and abs(float(inf.r) / scale_r - 1) <= max(tol, 1e-9) and abs(float(inf.v) / scale_v - 1) <= max(tol, 1e-9) \
+            and abs(float(inf.sin_fpa) - sin_fpa_ref) <= max(10 * tol, 1e-8)
+    c.ensure("derived_quantities_do_not_depend_on_the_form_held", ok_infos)
     c.ensure("roundtrip_all_pairs", worst <= tol)
     # definitions, independently (twobody.elements uses the vector definitions of Vallado ch. 2)
     a_, e_, i_, O_, w_, nu_ = twobody.elements(r0, v0, mu)
